@@ -3,7 +3,10 @@ use crate::streaming::storage::StreamStorage;
 use crate::streaming::streams::stream::Stream;
 use crate::streaming::streams::COMPONENT;
 use crate::streaming::topics::topic::Topic;
+#[cfg(not(kani))]
 use ahash::AHashSet;
+#[cfg(kani)]
+use iggy::verif_model::map::AHashSet;
 use error_set::ErrContext;
 use futures::future::join_all;
 use iggy::error::IggyError;
@@ -11,9 +14,20 @@ use iggy::utils::timestamp::IggyTimestamp;
 use serde::{Deserialize, Serialize};
 use std::path::Path;
 use std::sync::Arc;
+#[cfg(not(kani))]
 use tokio::fs;
+#[cfg(kani)]
+use iggy::verif_model::shim::fs;
+#[cfg(kani)]
+use iggy::verif_model::shim as tokio;
+#[cfg(not(kani))]
 use tokio::fs::create_dir_all;
+#[cfg(kani)]
+use iggy::verif_model::fs::create_dir_all;
+#[cfg(not(kani))]
 use tokio::sync::Mutex;
+#[cfg(kani)]
+use iggy::verif_model::lock::Mutex;
 use tracing::{error, info, warn};
 
 #[derive(Debug)]
